@@ -2,9 +2,9 @@
   C03, part beap — beap search (beap_search.py) yields programs by non-decreasing cost (non-increasing
   probability); when a program of cost c is produced, every strictly cheaper program was produced.
 
-  FULL STATEMENT (not proved as a whole): for every fuel and every prefix of the run, the costs of the
-  yielded programs are non-decreasing and every derivable program strictly cheaper than a yielded one was
-  yielded before it.
+  FULL STATEMENT: for every fuel and every prefix of the run, the costs of the yielded programs are
+  non-decreasing (PROVED: C03_Beap_order, positive rule costs) and every derivable program strictly cheaper
+  than a yielded one was yielded before it (prefix completeness: NOT proved, compared on every case).
 
   Proved here (every grammar with distinct dict keys, every cost table, every fuel):
   THE MINIMAL COSTS (beap_search.py:79-119, the part of the enumerator the order rests on):
